@@ -253,7 +253,7 @@ impl Space for TextProg {
 
 /// Semantic single faults on `prelude + leaf`: deletion / duplication / retyping of one
 /// prelude declaration, exhaustive over sites.
-fn fault_space() -> Box<dyn Space> {
+pub fn fault_space(oracle: fn(&ProgCase, u64, &mut Ctx)) -> Box<dyn Space> {
     let types: Vec<Ty> = vec![Ty::plain("int"), Ty::w("uint", 8), Ty::w("float", 64), Ty::plain("bit"), Ty::w("bit", 4), Ty::plain("bool"), Ty::plain("duration"), Ty::w("angle", 20), Ty::plain("complex"), Ty::plain("stretch")];
     let npre = prelude().len() as u64;
     let nl = leaves().len() as u64;
@@ -314,7 +314,7 @@ fn fault_space() -> Box<dyn Space> {
         stmts.push(leaf.stmt.clone());
         Some(ProgCase { stmts, tag: format!("{}/leaf={}", tag, leaf.name) })
     };
-    Box::new(ProgSpace { name: "FAULTS/prelude".into(), count, per_block: 64, gen: Box::new(gen), oracle: prog_oracle, desc, timeout_s: 120 })
+    Box::new(ProgSpace { name: "FAULTS/prelude".into(), count, per_block: 64, gen: Box::new(gen), oracle, desc, timeout_s: 120 })
 }
 
 /// Gate / subroutine calls with one argument or one operand more or less.
@@ -354,7 +354,7 @@ pub fn spaces(tier: Tier, _seed: u64) -> Vec<Box<dyn Space>> {
     v.push(crate::props::gprog::spines(0, false, true, false, prog_oracle));
     v.push(crate::props::gprog::spines(1, false, true, false, prog_oracle));
     v.push(crate::props::gprog::spines(1, false, false, false, prog_oracle));
-    v.push(fault_space());
+    v.push(fault_space(prog_oracle));
     v.push(arity_space());
     v.push(TextSpace::toks(c01::etok(true, 3, Render::Spaced), text_oracle));
     if tier.is_thorough() {
